@@ -90,6 +90,13 @@ Definition step (st : rstate) (op : list tok) : rstate * list tok :=
       match args with
       | [TN _; TN _; TN n; TN _] => (st, [TN n; TS "inorder"])
       | _ => bad end
+    else if name =? "bb_oversize" then
+      (* black-box: an answer above the ceiling is turned into an error answer and the
+         worker goes on answering; nothing of the model is involved *)
+      (st, [TS "failure"; TS "later_answered"])
+    else if name =? "retype" then
+      (* Channel::into moves every field: buffers, interest and readiness are unchanged *)
+      (mkr (retype c) s (rbad st), st_toks (retype c))
     else if name =? "sndbuf" then (st, [])
     else if name =? "writable_p" then
       (* back-pressure variant: the peer does not read; the number of bytes the
